@@ -198,6 +198,30 @@ func c08Run(c *mc.Ctx) {
 	}
 	c.Done(fmt.Sprintf("every strict prefix and every single structural perturbation (type tags, 4-byte sizes incl. 0x7fffffff/0x80000000/0xffffffff, field ids) of %d value trees x 7 skippers", len(trees)))
 
+	// (c2) well-formed values whose declared sizes use the high bits of the low size half-word (must be accepted, exact extent)
+	for _, tr := range gen.Trees(true, 2) {
+		enc := ref.Encode(nil, &tr.V)
+		if len(enc) < 4000 || !c.Mine() {
+			continue
+		}
+		in := append(enc, 0x00, 0x7f)
+		r := ref.SkipResult{OK: true, N: len(enc), MaxDepth: tr.V.Depth()}
+		for _, sk := range allSkippers {
+			skipCompare(c, "C08", in, tr.V.T, sk, full, "well-formed "+tr.Name, &r)
+		}
+	}
+	// (c3) well-formed values read one after another from one decoder / reader without Release (consumed prefix)
+	hv := len(c02HistValues())
+	for a := 0; a < hv; a++ {
+		for b := 0; b < hv; b++ {
+			for _, dec := range []string{skDecStream, skDecBytesR, skReaderSkip} {
+				if !c.Mine() {
+					continue
+				}
+				c02HistOne(c, c02Hist{Decoder: dec, Seq: []int{a, b}, Env: EnvCfg{Chunk: 4096}, Prop: "C08"})
+			}
+		}
+	}
 	// (d) nesting chains 1..70 for every container kind and both leaf kinds
 	for _, kind := range []string{"list", "set", "mapkey", "mapval", "struct"} {
 		for _, leaf := range []int8{ref.BYTE, ref.STRING} {
@@ -273,6 +297,10 @@ func init() {
 		},
 		Run: c08Run,
 		Replay: func(c *mc.Ctx, sub string, raw json.RawMessage) {
+			if sub == "history" {
+				replayAs(raw, func(k c02Hist) { c02HistOne(c, k) })
+				return
+			}
 			replayAs(raw, func(k c08Case) {
 				b, _ := hex.DecodeString(k.InputHex)
 				setAllocCap(2 << 20)
